@@ -7,8 +7,9 @@ PROP = {
     "coq_targets_thorough": ["theories/SSA/SsaSmall"],
     "n": {"quick": 480, "thorough": 12000},
     "theorems": ["ssa_check_sound", "check_typing_sound", "ssa_step_sim", "ssa_operands_agree",
-                 "ssa_total_partial", "ssa_model_erase", "ssa_model_single_def", "ssa_model_arity", "ssa_correct_partial",
-                 "non_locals_cover", "idf_covered_model", "idf_no_phi_agree", "idf_no_phi_entry"],
+                 "ssa_total", "ssa_model_erase", "ssa_model_single_def", "ssa_model_arity", "ssa_correct_partial",
+                 "non_locals_cover", "idf_covered_model", "idf_no_phi_agree", "idf_no_phi_entry",
+                 "rename_edge_agree", "rename_entry_agree"],
     "rule": "cases 0-7 of every seed are fixed shapes (entry self-loop with/without exit, dominator-tree siblings and deep chains that redefine a name, a scalar read and written by the same instruction as its only reader (assign/load), Lengauer-Tarjan's 13-block flow graph, a 12-block ladder); then random IL functions, one xoshiro256** stream per (seed,index): fixed skeletons (diamond whose join branches on guards, nested "
             "diamonds inside a loop, loop through the entry, self-loops, three-way fans) 5/12 and random CFGs of 1-8 blocks with back edges, "
             "self-loops and (1/3) blocks unreachable from the entry 7/12; 0-3 instructions per block (assign 60%, load 10%, store 10%, nop 4-20%, "
@@ -16,16 +17,15 @@ PROP = {
             "`g` is assigned in several blocks and read ONLY by edge guards; 3 initial states per case (values 0..7 or random, 1/12 undefined), 40 steps. "
             "non-trivial = the CFG has a join (a block with >= 2 incoming edges); distinct by hash of the case text",
     "trusted_base": [KERNEL, HARNESS_TB, "Exec/Sem.v + SSA/SemSSA.v as the meaning of `executing` the two forms"],
-    "assumptions": ["a scalar name has one width per function (wf_names)"],
+    "assumptions": ["a scalar name has one width per function (wf_names)", "theorems about the model: cfg_inv and block count <= usize::MAX"],
     "partial": ["completeness for ALL programs (`ssa_correct_full`: the algorithm's output always passes the validator) is not proved: "
                 "decided per output by running the verified validator in the kernel [V], proved for 74 676 enumerated functions of <= 3 blocks [F], "
                 "and the Gallina model of the algorithm is tied to the Rust output on every generated case [D]",
-                "what is proved of it [U]: the model returns Ok (under C11's Semi-NCA hypothesis `semi_nca_ok`), its output erases to the input, "
+                "what is proved of it [U]: the model returns Ok (unconditionally since round 4: C11's `snca_correct`; only premise: block count <= usize::MAX), its output erases to the input, "
                 "has unique versioned definitions, well-formed structure and phi arity; ssa_check f f' = remaining f' (uses defined, local consistency of the "
                 "inferred typing); of `remaining` the dominance-frontier content is proved (the placement covers the iterated frontier: idf_covered_model; "
                 "idf_no_phi_agree/idf_no_phi_entry), the renaming invariant of the dominator-tree walk and the completeness of `infer` are the open rest "
                 "(SsaComplete.ssa_remaining_open)",
-                "`ssa_total_partial` is conditional on `semi_nca_ok` (unbounded correctness of Semi-NCA is C11's open item)",
                 "`ssa_model_passes_small` [F] is built and checked in the thorough tier only (SSA/SsaSmall.v, coq_targets_thorough)"],
     "level_text": "Unbounded Coq theorem `ssa_check_sound` (closed under the global context): whenever the executable validator accepts (f, f'), "
                   "f' differs from f only in ssa fields and phi nodes, is valid SSA (single assignment; every operand, declared intrinsic read, edge guard "
@@ -35,5 +35,6 @@ PROP = {
                   "transcription of the algorithm (over the C11 graph models) is compared with the Rust output on the same cases and passes the validator "
                   "on all 74 676 functions of a small enumerated family.",
     "level_note": "Trusted: Coq kernel + vm_compute; Exec/Sem.v and SSA/SemSSA.v as the definition of execution; the harness pretty-printer (the "
-                  "dumped f, f' are the terms the validator sees). Not proved: that the algorithm passes the validator on every program.",
+                  "dumped f, f' are the terms the validator sees). Not proved: that the algorithm passes the validator on every program (proved of it: the model is total (`ssa_total`), its output erases "
+                  "to the input, has unique definitions and correct phi arity, the phi placement covers the iterated dominance frontier; open: the renaming invariant).",
 }
